@@ -359,7 +359,9 @@ func genState(rng *rand.Rand, sp *common.Spec, forkIdx int, slot uint64, n int, 
 		}
 		return 0
 	}
-	cj := back(uint64(rng.Intn(3)))
+	// reachable shape: finalized <= previous justified <= current justified <= previous epoch
+	// (the justified checkpoint of the running epoch is only set by the epoch transition at its end)
+	cj := back(uint64(1 + rng.Intn(3)))
 	pj := cj
 	if rng.Intn(2) == 0 {
 		pj = back(cur - cj + uint64(1+rng.Intn(2)))
@@ -371,7 +373,8 @@ func genState(rng *rand.Rand, sp *common.Spec, forkIdx int, slot uint64, n int, 
 	if pr.leak {
 		fin = back(uint64(3 + rng.Intn(40)))
 		if rng.Intn(2) == 0 {
-			pj, cj = fin, fin+uint64(rng.Intn(int(cur-fin)+1))
+			pj = fin
+			cj = fin + uint64(rng.Intn(int(back(1)-fin)+1))
 		}
 		if pj < fin {
 			pj = fin
